@@ -39,7 +39,9 @@ NAMES = ["A[0,0]", "A[0,1]", "A[1,0]", "A[1,1]", "x[0]", "x[1]", "x[2]", "x[3]",
 XV = ["vvar", "x"]
 SAFE_FUNCS = [f for f in FUNCS]
 TERM_KINDS = (["var", "scaled", "prod", "pow2", "pow3", "param", "vsum", "dot", "lincomb", "norm2", "norm1", "quad", "vpowsum",
-               "vunsum", "msum", "sqshift", "yvar"] + ["fn:" + f for f in SAFE_FUNCS])
+               "vunsum", "msum", "sqshift", "yvar", "lincomb-rev", "vsum-rev", "quad-rev", "divconst"] + ["fn:" + f for f in SAFE_FUNCS])
+AFFINE_KINDS = ["var", "scaled", "yvar", "lincomb", "lincomb-rev", "vsum", "vsum-rev", "divconst"]
+XR = ["slice", ["vvar", "x"], None, None, -1]
 
 
 def _c(v):
@@ -69,6 +71,15 @@ def term(kind, i, for_mul, scale):
         r = ["dot", XV, ["slice", XV, None, None, -1], "dot"]
     elif kind == "lincomb":
         r = ["lincomb", [1, -2, 0.5, 3], XV, "c@x"]
+    elif kind == "lincomb-rev":
+        r = ["lincomb", [1, -2, 0.5, 3], XR, "c@x"]
+    elif kind == "vsum-rev":
+        r = ["vsum", XR]
+    elif kind == "quad-rev":
+        r = ["quad", XR, [[2, 1, 0, 0], [0, 1, 0, 0.5], [0, 0, 3, 0], [1, 0, 0, 1]], "quadratic_form"]
+    elif kind == "divconst":
+        # division by a constant SUB-EXPRESSION (not a literal): (3 * x_i) / (Constant(2) * 4)
+        r = ["bin", "/", ["bin", "*", _c(3.0), xi], ["bin", "*", ["const", "Constant", 2], _c(4.0)]]
     elif kind == "norm2":
         r = ["norm", XV, 2, "method"]
     elif kind == "norm1":
@@ -113,10 +124,14 @@ def cases(draw, tier):
     if regime != "sweep" and op in ("*", "/"):
         kinds = [k for k in kinds if k in ("var", "scaled", "yvar", "param") or k.startswith("fn:")] or ["var"]
     convex = draw(st.booleans()) and op == "+"
+    affine = False
     if convex:
         kinds = [draw(st.sampled_from(["sqshift", "fn:exp", "fn:cosh", "pow2"])) for _ in range(nk)]
+    elif op == "+" and draw(st.integers(0, 2)) == 0:
+        affine = True
+        kinds = [draw(st.sampled_from(AFFINE_KINDS)) for _ in range(nk)]
     point = {nm: draw(st.integers(30, 90)) / 100.0 for nm in NAMES}
-    return {"regime": regime, "op": op, "n": n, "thr": thr, "T": T, "kinds": kinds, "convex": convex, "point": point,
+    return {"regime": regime, "op": op, "n": n, "thr": thr, "T": T, "kinds": kinds, "convex": convex, "affine": affine, "point": point,
             "wrt": draw(st.sampled_from(["x[0]", "x[1]", "x[3]", "y", "A[0,1]"])), "wrt_fresh": draw(st.integers(0, 3)) == 0,
             "prequery": draw(st.booleans())}
 
@@ -300,6 +315,21 @@ def _check(case):
                 return Result.violation("solve-differs", f"left-deep {sL.status.value} {list(sL.values)}, balanced {sB.status.value}; {desc}", classes)
             if sL.status.value == "optimal" and abs(sL.objective_value - sB.objective_value) > 1e-6 * (1 + abs(sB.objective_value)):
                 return Result.violation("solve-differs", f"objective {sL.objective_value!r} vs balanced {sB.objective_value!r}; {desc}", classes)
+        # 7. affine chains through solve(): whatever route is chosen (LP or not) the optimum must be the same
+        if case.get("affine") and n <= 460:
+            classes.append("solved-auto")
+            for o in list(objsL.values()) + list(bB.var_objects().values()):
+                o.lb, o.ub = -2.0, 2.0
+            sL, err = guarded("solve(auto)", lambda: Problem().minimize(eL).solve())
+            if err:
+                return err
+            sB = Problem().minimize(eB).solve()
+            if sL.status.value == "optimal" and sB.status.value == "optimal":
+                if abs(sL.objective_value - sB.objective_value) > 1e-5 * (1 + abs(sB.objective_value)):
+                    return Result.violation("solve-differs", f"solve(): left-deep objective {sL.objective_value!r}, balanced "
+                                                             f"{sB.objective_value!r}; {desc}", classes)
+            elif sL.status != sB.status and "optimal" in (sL.status.value, sB.status.value):
+                return Result.violation("solve-differs", f"solve(): left-deep {sL.status.value}, balanced {sB.status.value}; {desc}", classes)
     nontrivial = n >= case["T"] and (op != "+" or any(k != "var" for k in case["kinds"]))
     return Result.ok(nontrivial, classes)
 
